@@ -21,21 +21,18 @@ OBLIGATIONS = [
     "SkVerif.C11.last_eq_spec",
     "SkVerif.C11.seasonal_last_eq_spec",
     "SkVerif.C11.mean_eq_spec",
-    "SkVerif.C11.seasonal_mean_eq_spec_partial",
-    "SkVerif.C11.seasonal_mean_misaligned",
-    "SkVerif.C11.seasonal_alignment_any_window_partial",
-    "SkVerif.C11.seasonal_alignment_fails_witness",
+    "SkVerif.C11.seasonal_mean_eq_spec",
+    "SkVerif.C11.seasonal_alignment_any_window",
     "SkVerif.C11.drift_eq_spec",
+    "SkVerif.C11.drift_single_observation_nan",
     "SkVerif.C11.drift_rejects_missing_endpoint",
     "SkVerif.C11.fit_window_resolution",
     "SkVerif.C11.fit_rejects",
     "SkVerif.C11.insample_eq_one_step_ahead_spec",
     "SkVerif.C11.insample_last_eq_spec",
     "SkVerif.C11.insample_mean_eq_spec",
-    "SkVerif.C11.insample_drift_eq_spec_partial",
-    "SkVerif.C11.insample_drift_truncated_witness",
-    "SkVerif.C11.insample_seasonal_mean_eq_spec_partial",
-    "SkVerif.C11.insample_seasonal_mean_raises_witness",
+    "SkVerif.C11.insample_drift_eq_spec",
+    "SkVerif.C11.insample_seasonal_mean_eq_spec",
     "SkVerif.C11.insample_seasonal_last_eq_spec",
     "SkVerif.C11.predict_splits_horizon",
     "SkVerif.C11.predict_out_of_sample",
@@ -59,16 +56,17 @@ ASSUMPTIONS = ["exact rational arithmetic (dyadic inputs; Python floats compared
                "Theta: only the wrapped SES share (forecast minus the drift the forecaster reports) is compared with statsmodels",
                "adapters: horizons not earlier than the first observation (statsmodels wraps negative positions)"]
 RULE = ("fixed-order small scope: every (strategy, n<=14, sp<=4, window_length in {None} u 1..n) x (full horizon {-3..9}, every single step, "
-        "random subsets) x (without / with NaN), all non-empty subsets of {-3..9} for 4 configurations (quick: seed-rotated 1/8 resp. 1/32 slice); "
+        "random subsets) x (without / with NaN), all non-empty subsets of {-3..9} for 4 configurations (quick: seed-rotated 1/12 resp. 1/32 slice); "
         "structured random larger cases (n<60, sp<=12); malformed stream; trend values for degree 0..4, design matrices degree 0..5; "
         "5 statsmodels adapters + Theta vs direct statsmodels calls. distinct by driver line; non-trivial = a forecast with at least one finite value")
-LEVEL_TEXT = ("Lean 4 theorems (all series, periods, window lengths, horizons) that the model of NaiveForecaster / PolynomialTrendForecaster / "
-              "the statsmodels adapter computes the textbook forecast of an independent specification; model tied to /repo by differential "
-              "correspondence on every run; three clauses hold only partially for the code as it is (known findings, negation witnesses proved)")
-LEVEL_NOTE = ("proved for the model: last / seasonal last / mean / drift = textbook for every input; seasonal mean for windows of whole seasons; "
-              "in-sample = one-step-ahead from the moved cutoff; degree<=1 trend = least squares (normal equations + optimality); design matrix = "
-              "Vandermonde; adapter returns the wrapped model's prediction for exactly the requested time points. Only modelled / observed: "
-              "general-degree regression values, statsmodels internals, float rounding, gapped indexes.")
+LEVEL_TEXT = ("Lean 4 theorems (all series, periods, window lengths - multiples of the period or not -, horizons in-sample and "
+              "out-of-sample) that the model of NaiveForecaster / PolynomialTrendForecaster / the statsmodels adapter computes the textbook "
+              "forecast of an independent specification; model tied to /repo by differential correspondence on every run")
+LEVEL_NOTE = ("proved for the model at full strength: last / seasonal last / mean / seasonal mean (any window length) / drift = textbook; "
+              "in-sample = one-step-ahead from the moved cutoff, incl. windows cut by the start of the series (drift with one observation = NaN); "
+              "degree<=1 trend = least squares (normal equations + optimality); design matrix = Vandermonde; adapter returns the wrapped "
+              "model's prediction for exactly the requested time points. Three defects found by this check were fixed in /repo (ab76aa2, "
+              "3f305b4). Only modelled / observed: general-degree regression values, statsmodels internals, float rounding, gapped indexes.")
 TECHNIQUE = "interactive theorem proving (Lean 4, Mathlib tactics) over an executable model + differential correspondence testing + textbook oracle"
 
 UNIVERSE = list(range(-3, 10))
@@ -592,10 +590,10 @@ def gen_cases(tier, rng):
     cases = []
     # 1. small scope: all configs x (full horizon, every single step, random subsets) x (no NaN, NaN)
     k = 0
-    rot = rng.randrange(16)
+    rot = rng.randrange(24)
     for st, n, sp, wl in naive_configs():
         k += 1
-        if not thorough and (k + rot) % 8 != 0:
+        if not thorough and (k + rot) % 12 != 0:
             continue
         fhs = [UNIVERSE] + [[h] for h in UNIVERSE]
         for _ in range(6 if thorough else 4):
@@ -613,7 +611,7 @@ def gen_cases(tier, rng):
                 continue
             cases.append(_naive(rng, st, sp, wl, n, fh, nan=rng.random() < 0.2))
     # 3. structured random, larger
-    for _ in range(6000 if thorough else 1000):
+    for _ in range(6000 if thorough else 700):
         st = rng.choice(["last", "mean", "mean", "drift"])
         n = rng.choice([rng.randrange(1, 15), rng.randrange(15, 60)])
         sp = rng.choice([1, rng.randrange(2, 13)])
